@@ -147,6 +147,8 @@ def run(replay=None):
             first = [a for k, a in ub_cases if a[0] == w][0]
             chk.violation(f'ipow<uint{w}_t> promoted-int overflow', f'C++ semantics (CKernel) give signed overflow of the promoted int in ipow<uint{w}_t>{tuple(first[1:])}; clang UBSan on the real code: {confirmed}',
                           {'cases': [['ipow', list(first)]], 'model': 'UB SignedOverflow', 'clang_ubsan': confirmed})
+    if chk.tier == 'thorough':
+        sweep32(chk)
     sizing(chk)
     return chk.finish()
 
@@ -241,3 +243,42 @@ def sizing(chk):
                     j = next((j for j in range(min(len(mp), len(xp))) if mp[j] != xp[j]), 0)
                     chk.obligation_broken(f'correspondence of curve {"positions" if q else "sizing"} with the model: {t} extents {sz} ({cfg})', f'impl {xp[j][:120]} model {mp[j][:120]}')
     chk.cov['sizing_cases'] = len(lines)
+
+
+def sweep32(chk):
+    """thorough: EVERY input of round_pow2<uint32_t> on its domain [0, 2^31], compared as the run-length encoding of its graph"""
+    with core.Lock('harness'):
+        exe, log = core.build_harness('h_numeric', os.path.join(core.VERIF, 'harness', 'h_numeric.cpp'), 'relplain')
+    if not exe:
+        chk.obligation_broken('numeric harness (plain build) does not compile', log[-2000:])
+        return
+    import concurrent.futures
+    top = 1 << 31
+    nchunk = 16
+    bounds = [(k * (top // nchunk) + (1 if k else 0), (k + 1) * (top // nchunk)) for k in range(nchunk)]
+    bounds[0] = (0, bounds[0][1])
+
+    def one(b):
+        rc, out, err = core.run_exe(exe, f'0 rp2rle {b[0]} {b[1]}\n', timeout=1800)
+        return out.strip().split(' ', 1)[1] if out.strip() else 'MISSING ' + err[-200:]
+    with concurrent.futures.ThreadPoolExecutor(max_workers=nchunk) as ex:
+        outs = list(ex.map(one, bounds))
+    runs = []
+    for o in outs:
+        for tok in o.split():
+            if ':' not in tok:
+                chk.violation('round_pow2<uint32_t> sweep fails', o[:300], {'chunk': o[:300]}, found_input=False)
+                return
+            i, v = tok.split(':')
+            if not runs or runs[-1][1] != int(v):
+                runs.append((int(i), int(v)))
+    want = [(0, 1)] + [((1 << (k - 1)) + 1, 1 << k) for k in range(1, 32)]
+    chk.cov['round_pow2_u32_inputs_swept'] = top + 1
+    chk.cov['evaluations'] += top + 1
+    chk.cov['distinct_nontrivial'] += top - 1
+    if runs != want:
+        bad = next((q for q in range(min(len(runs), len(want))) if runs[q] != want[q]), min(len(runs), len(want)))
+        got = runs[bad] if bad < len(runs) else None
+        exp = want[bad] if bad < len(want) else None
+        i = min(x[0] for x in (got, exp) if x)
+        chk.violation('rp2<uint32_t> wrong value', f'round_pow2<uint32_t> differs from the least power of two from input {i} on: run {got}, closed form {exp}', {'cases': [['rp2', [32, i]]], 'runs': runs[:40]})
